@@ -151,6 +151,20 @@ def cases(tier, seed):
                 for (M, K, N) in ([(3, 2, V + 1), (2, 3, V)] if not thorough else [(3, 2, V + 1), (2, 3, V), (4, 4, 2 * V + 1), (1, 5, V - 1 or 1), (V, V, V)]):
                     if N <= 17 and M <= 9: out.append(matmul_off(ty, M, K, N, off, cfg))
                 if off == 1 and 5 * V + 2 <= 42: out.append(matmul_off(ty, 5, 2, 5 * V + 2, off, cfg))   # masked-remainder kernel with N >= 5V, N % V > 1
+        # an offset that is 16-byte aligned but not aligned to the 32/64-byte register of this ISA: a library that derived
+        # "aligned" from a 16-byte test would issue aligned vector accesses here
+        if not isa.startswith('sse') and isa != 'scalar':
+            for ty in (FLT, DBL, INT):
+                V = vec_elems(isa, ty); off = 16 // (ty.bits // 8)
+                if off in ((1, 2, 3) if thorough else (1, 3)): continue
+                out.append(transpose_off(ty, V, V, off, cfg)); out.append(transpose_off(ty, V + 1, V, off, cfg))
+                for n in (V, 2 * V + 1):
+                    if ty is INT:
+                        out.append(add_off(ty, n, off, cfg)); out.append(addassign_off(ty, n, off, cfg))
+                    else:
+                        out.append(scalarop_off(ty, n, off, '+', Cfg(isa, pipe='P0')))
+                    if n <= 17: out.append(sum_off(ty, n, off, cfg))
+                out.append(matmul_off(ty, 2, 3, V, off, cfg))
         # runtime checks
         cfgc = Cfg(isa, checks=True)
         for ty in (INT, FLT):
